@@ -34,6 +34,7 @@ from vgi_rpc.metadata import (
     REQUEST_VERSION_KEY,
     RPC_METHOD_KEY,
     SERVER_ID_KEY,
+    SHM_OFFSET_KEY,
     SHM_SEGMENT_NAME_KEY,
     SHM_SEGMENT_SIZE_KEY,
     TRACEPARENT_KEY,
@@ -435,8 +436,17 @@ def _read_request(
             fmt_batch(batch),
             fmt_metadata(custom_metadata),
         )
+
+    def _discard_unresolved_request() -> None:
+        # A request refused on its envelope is never resolved, so a request
+        # batch routed through the static segment would keep its region forever.
+        if shm is not None and is_shm_pointer_batch(batch, custom_metadata) and custom_metadata is not None:
+            with contextlib.suppress(Exception):
+                shm.free(int(custom_metadata[SHM_OFFSET_KEY]))
+
     method_name_bytes = custom_metadata.get(RPC_METHOD_KEY) if custom_metadata else None
     if method_name_bytes is None:
+        _discard_unresolved_request()
         raise RpcError(
             "ProtocolError",
             "Missing 'vgi_rpc.method' in request batch custom_metadata. "
@@ -446,11 +456,13 @@ def _read_request(
         )
     version_bytes = custom_metadata.get(REQUEST_VERSION_KEY) if custom_metadata else None
     if version_bytes is None:
+        _discard_unresolved_request()
         raise VersionError(
             "Missing 'vgi_rpc.request_version' in request batch custom_metadata. "
             f"Set the 'vgi_rpc.request_version' custom_metadata value to {REQUEST_VERSION!r}."
         )
     if version_bytes != REQUEST_VERSION:
+        _discard_unresolved_request()
         raise VersionError(
             f"Unsupported request version {version_bytes!r}, expected {REQUEST_VERSION!r}. "
             f"Set the 'vgi_rpc.request_version' custom_metadata value to {REQUEST_VERSION!r}."
@@ -458,6 +470,7 @@ def _read_request(
     try:
         method_name = method_name_bytes.decode()
     except UnicodeDecodeError as exc:
+        _discard_unresolved_request()
         raise RpcError(
             "ProtocolError",
             "Invalid 'vgi_rpc.method' in request batch custom_metadata: the method name must be valid UTF-8.",
@@ -822,13 +835,25 @@ def _validate_result(method_name: str, value: object, result_type: object) -> No
         raise TypeError(f"{method_name}() expected a non-None return value but got None")
 
 
-def _drain_stream(reader: ValidatedReader) -> None:
-    """Consume remaining batches so the IPC EOS marker is read."""
+def _drain_stream(reader: ValidatedReader, shm: ShmSegment | None = None) -> None:
+    """Consume remaining batches so the IPC EOS marker is read.
+
+    With *shm*, a discarded batch that is a shared-memory pointer has its
+    region freed.  The sender allocated that region for this receiver to
+    release once it is done with the batch; a batch that is thrown away unread
+    is done with, and nobody else will ever free it.
+    """
     while True:
         try:
-            reader.read_next_batch()
+            if shm is None:
+                reader.read_next_batch()
+                continue
+            batch, custom_metadata = reader.read_next_batch_with_custom_metadata()
         except StopIteration:
             return
+        if is_shm_pointer_batch(batch, custom_metadata) and custom_metadata is not None:
+            with contextlib.suppress(Exception):
+                shm.free(int(custom_metadata[SHM_OFFSET_KEY]))
 
 
 def _write_stream_header(
